@@ -1,9 +1,177 @@
+import RsslVerif.Model.CondChain
 import RsslVerif.Driver.Util
-/-! Line-protocol front end of the C11 model (stub until the model is built). -/
-namespace RsslVerif.Driver.C11
+/-!
+Line-protocol front end of the C11 model.
 
+* `C11.seq  <symbols>`            one character per line over the property's alphabet:
+    `0` `#if 0` · `1` `#if 1` · `d` `#ifdef M` · `n` `#ifndef M` · `e` `#elif 0` · `E` `#elif 1` ·
+    `l` `#else` · `f` `#endif` · `t` text line `t<position> M` · `D` `#define M 1`;
+    a probe line `probe M` is appended.
+* `C11.run  <dir>;<dir>;…`        general lines, fields separated by `:`, tokens by one space:
+    `i:<cond>` `d:<name>` `n:<name>` `e:<cond>` `l` `f` `t:<tokens>` `D:<name>:<body>` `U:<name>`
+    `P:once|warning|unknown` `I:<tokens of the included line>` `I!` (file missing) `X` (unknown command)
+* `C11.cond <defs>  <cond>`       `defs` = `name=body,name=body`; the value of `#if <cond>`.
+
+Token spelling: `|| && == != < <~ > >~ = ! ( ) true false 123 123u name`; `<~`/`>~` = angle bracket
+directly followed by the next token.  Observation: `ok line|line|…` (tokens joined by one space) or
+`err <PreprocessError variant>`; for `C11.cond`: `1`, `0` or `err …`.
+Every request may carry one more field, the whitespace style (0-3) used by the harness when rendering.
+-/
+namespace RsslVerif.Driver.C11
+open RsslVerif.Gen.CondTables RsslVerif.Model.CondExpr RsslVerif.Model.CondChain RsslVerif.Driver
+
+def isIdent (s : String) : Bool :=
+  match s.toList with
+  | [] => false
+  | c :: r => (c.isAlpha || c == '_') && r.all (fun c => c.isAlphanum || c == '_')
+
+def parseTok (s : String) : CTok :=
+  if s == "||" then .VerticalBarVerticalBar
+  else if s == "&&" then .AmpersandAmpersand
+  else if s == "==" then .EqualsEquals
+  else if s == "!=" then .ExclamationPointEquals
+  else if s == "<" then .LeftAngleBracket .Whitespace
+  else if s == "<~" then .LeftAngleBracket .Token
+  else if s == ">" then .RightAngleBracket .Whitespace
+  else if s == ">~" then .RightAngleBracket .Token
+  else if s == "=" then .Equals
+  else if s == "!" then .ExclamationPoint
+  else if s == "(" then .LeftParen
+  else if s == ")" then .RightParen
+  else if s == "true" then .True
+  else if s == "false" then .False
+  else match s.toNat? with
+    | some n => if n < 2 ^ 64 then .LiteralInt (UInt64.ofNat n) else .Other s
+    | none =>
+      if s.endsWith "u" then
+        match (s.dropEnd 1).toString.toNat? with
+        | some n => if n < 2 ^ 64 then .LiteralIntUnsigned32 (UInt64.ofNat n) else .Other s
+        | none => if isIdent s then .Id s else .Other s
+      else if isIdent s then .Id s else .Other s
+
+def parseToks (s : String) : List CTok :=
+  (s.splitOn " ").filter (· ≠ "") |>.map parseTok
+
+def showTok : CTok → String
+  | .VerticalBarVerticalBar => "||"
+  | .AmpersandAmpersand => "&&"
+  | .EqualsEquals => "=="
+  | .ExclamationPointEquals => "!="
+  | .LeftAngleBracket _ => "<"
+  | .RightAngleBracket _ => ">"
+  | .Equals => "="
+  | .ExclamationPoint => "!"
+  | .False => "false"
+  | .True => "true"
+  | .LiteralInt v => toString v.toNat
+  | .LiteralIntUnsigned32 v => toString v.toNat ++ "u"
+  | .LeftParen => "("
+  | .RightParen => ")"
+  | .Id n => n
+  | .Other t => t
+
+def showErr : Err → String
+  | .chain .ElseNotMatched => "ElseNotMatched"
+  | .chain .EndIfNotMatched => "EndIfNotMatched"
+  | .chain .ConditionChainNotFinished => "ConditionChainNotFinished"
+  | .cond .FailedToParseIfCondition => "FailedToParseIfCondition"
+  | .cond .MacroRequiresArguments => "MacroRequiresArguments"
+  | .cond .MacroArgumentsNeverEnd => "MacroArgumentsNeverEnd"
+  | .cond .MacroExpectsDifferentNumberOfArguments => "MacroExpectsDifferentNumberOfArguments"
+  | .UnknownPragma => "UnknownPragma"
+  | .UnknownCommand => "UnknownCommand"
+  | .FailedToFindFile => "FailedToFindFile"
+
+def showOut (out : List (List CTok)) : String :=
+  "|".intercalate ((out.filter (fun l => !l.isEmpty)).map (fun l => " ".intercalate (l.map showTok)))
+
+def showResult : Except Err St → String
+  | .ok s => "ok " ++ showOut s.out
+  | .error e => "err " ++ showErr e
+
+def parseDir (s : String) : Option Dir :=
+  match s.splitOn ":" with
+  | ["i", c] => some (.ifc (parseToks c))
+  | ["d", n] => some (.ifdef false n)
+  | ["n", n] => some (.ifdef true n)
+  | ["e", c] => some (.elif (parseToks c))
+  | ["l"] => some .els
+  | ["f"] => some .endif
+  | ["t", t] => some (.text (parseToks t))
+  | ["D", n, b] => some (.define n (parseToks b))
+  | ["U", n] => some (.undef n)
+  | ["P", "once"] => some (.pragma .once)
+  | ["P", "warning"] => some (.pragma .warning)
+  | ["P", "unknown"] => some (.pragma .unknown)
+  | ["I", t] => some (.incl (some [parseToks t]))
+  | ["I!"] => some (.incl none)
+  | ["X"] => some .unknown
+  | _ => none
+
+def symDir (pos : Nat) (c : Char) : Option Dir :=
+  if c == '0' then some (.ifc [.LiteralInt 0])
+  else if c == '1' then some (.ifc [.LiteralInt 1])
+  else if c == 'd' then some (.ifdef false "M")
+  else if c == 'n' then some (.ifdef true "M")
+  else if c == 'e' then some (.elif [.LiteralInt 0])
+  else if c == 'E' then some (.elif [.LiteralInt 1])
+  else if c == 'l' then some .els
+  else if c == 'f' then some .endif
+  else if c == 't' then some (.text [.Id ("t" ++ toString pos), .Id "M"])
+  else if c == 'D' then some (.define "M" [.LiteralInt 1])
+  else none
+
+def symDirs (s : String) : Option (List Dir) :=
+  let rec go : Nat → List Char → Option (List Dir)
+    | _, [] => some [.text [.Id "probe", .Id "M"]]
+    | i, c :: r => do
+      let d ← symDir i c
+      let t ← go (i + 1) r
+      pure (d :: t)
+  go 0 s.toList
+
+/-- the model handles object-like macros whose bodies contain no identifier -/
+def supportedDir : Dir → Bool
+  | .define _ b => idFree b
+  | _ => true
+
+def parseDefs (s : String) : Option Macros :=
+  if s.isEmpty then some [] else
+  sequenceOpt ((s.splitOn ",").map fun d =>
+    match d.splitOn "=" with
+    | n :: b :: more => some (n, parseToks ("=".intercalate (b :: more)))
+    | _ => none)
+
+def handleCore (op : String) (args : List String) : String :=
+  match op, args with
+  | "C11.seq", [syms] =>
+    match symDirs syms with
+    | some ds => showResult (runReal [] ds)
+    | none => "bad-request"
+  | "C11.run", [dirs] =>
+    match sequenceOpt ((if dirs.isEmpty then [] else dirs.splitOn ";").map parseDir) with
+    | some ds => if ds.all supportedDir then showResult (runReal [] ds) else "unsupported macro body"
+    | none => "bad-request"
+  | "C11.cond", [defs, cond] =>
+    match parseDefs defs with
+    | some m =>
+      if m.all (fun e => idFree e.2) then
+        let m' : Macros := m.foldl (fun acc e => acc.define e.1 e.2) []
+        match condValue m' (parseToks cond) with
+        | .ok true => "1"
+        | .ok false => "0"
+        | .error e => "err " ++ showErr (.cond e)
+      else "unsupported macro body"
+    | none => "bad-request"
+  | _, _ => "unsupported-op"
+
+/-- the optional last field is the whitespace/comment style the harness renders the lines with; the
+    model works on tokens and ignores it -/
 def handle (op : String) (args : List String) : String :=
-  let _ := (op, args)
-  "unsupported-op"
+  match op, args with
+  | "C11.seq", [a, _] => handleCore op [a]
+  | "C11.run", [a, _] => handleCore op [a]
+  | "C11.cond", [a, b, _] => handleCore op [a, b]
+  | _, _ => handleCore op args
 
 end RsslVerif.Driver.C11
